@@ -337,7 +337,7 @@ int mod_deregister(m_mod_t **mod, bool from_user) {
              * Destroy context if it is not looping and
              * it has no more modules in it and is not a persistent ctx
              */
-            if (c->state == M_CTX_IDLE && m_map_len(c->modules) == 0 && !(c->flags & M_CTX_PERSIST) && m_ctx() == c) { // not already released by a nested deregistration
+            if (c->state == M_CTX_IDLE && m_map_len(c->modules) == 0 && !(c->flags & M_CTX_PERSIST) && !c->replacing && m_ctx() == c) { // not already released by a nested deregistration
                 ret = m_ctx_deregister();
             }
         }
@@ -457,9 +457,21 @@ _public_ int m_mod_register(const char *name, m_mod_t **mod_ref, const m_mod_hoo
             M_DEBUG("Module with same name already registered in context.");
             return -EEXIST;
         }
-        ret = mod_deregister(&old_mod, false);
+        /*
+         * The new module takes the place of the old one right away:
+         * a non persistent context must not be released for losing its only module meanwhile.
+         */
+        M_MEM_LOCK(c, {
+            c->replacing = true;
+            ret = mod_deregister(&old_mod, false);
+            c->replacing = false;
+        });
         if (ret != 0) {
             return ret;
+        }
+        if (m_ctx() != c) {
+            /* old module's on_stop() deregistered the context */
+            return -EPERM;
         }
     }
 
